@@ -375,6 +375,9 @@ func (r *yieldRewriter) rewriteIfStmt(
 		return block
 	}
 
+	// the init stmt is emitted unchanged, a yield in it would become a no-op call
+	r.assert(r.mustNoYield(stmt.Init), stmt, "yield in if-init not supported")
+
 	switch alt := stmt.Else.(type) {
 	case nil:
 		body := r.rewriteBlockStmt(stmt.Body, kindIf)
